@@ -184,10 +184,6 @@ func patBytes(seed, p0, n int) []byte {
 func pick(r *Rng, xs ...int) int { return xs[r.Intn(len(xs))] }
 
 func writeSize(r *Rng) int {
-	if r.Intn(45) == 0 {
-		// one Write call of 64 KiB and more (MConnection flushes a full 64 KiB buffer at once)
-		return pick(r, 65535, 65536, 65537, 2*65536, 70000)
-	}
 	switch r.Intn(10) {
 	case 0:
 		return pick(r, 0, 1, 1, 2)
@@ -485,6 +481,63 @@ func establishReal(c *Ctx) (a, b *connection.SecretConnection, ab, ba *queue, pr
 		return nil, nil, nil, nil, privA, privB, errB
 	}
 	return a, b, ab, ba, privA, privB, nil
+}
+
+// bigWriteCase: one Write call of 64 KiB and more (MConnection flushes a full 64 KiB buffer at
+// once) must return and deliver exactly those bytes, whatever way the transport fragments them.
+// Oracle only (the frame-level model cases stay small).
+func bigWriteCase(c *Ctx, n int) {
+	ea, eb, qab, qba := duplex()
+	var k [32]byte
+	copy(k[:], c.Rng.Bytes(32))
+	n1, n2 := boundaryNonce(c.Rng), boundaryNonce(c.Rng)
+	a := connection.VerifNewSecretConnection(ea, k, n1, n2)
+	b := connection.VerifNewSecretConnection(eb, k, n2, n1)
+	if c.Rng.Bool() {
+		qab.maxRead = pick(c.Rng, 1, 7, 512, 1041)
+	}
+	data := c.Rng.Bytes(n)
+	desc := map[string]interface{}{"family": "big-write", "bytes": n, "transport_read_cap": qab.maxRead}
+	var wn int
+	var werr error
+	wdone := make(chan struct{})
+	go func() {
+		wn, werr = a.Write(data)
+		close(wdone)
+	}()
+	got := make([]byte, n)
+	rdone := make(chan error, 1)
+	go func() {
+		_, err := io.ReadFull(b, got)
+		rdone <- err
+	}()
+	timeout := time.After(40 * time.Second)
+	select {
+	case <-wdone:
+	case <-timeout:
+		c.Stats.Fail(fmt.Sprintf("class=write-hang: one Write of %d bytes did not return within 40 s", n), desc)
+		qab.Close()
+		qba.Close()
+		<-wdone
+		return
+	}
+	if werr != nil || wn != n {
+		c.Stats.Fail(fmt.Sprintf("class=write-result: Write(%d bytes) returned n=%d err=%v", n, wn, werr), desc)
+	}
+	select {
+	case err := <-rdone:
+		if err != nil {
+			c.Stats.Fail(fmt.Sprintf("class=lost-bytes: reading back a single write of %d bytes fails: %v", n, err), desc)
+		} else if !bytes.Equal(got, data) {
+			c.Stats.Fail(fmt.Sprintf("class=stream-differs: a single write of %d bytes is delivered with different content", n), desc)
+		}
+	case <-time.After(40 * time.Second):
+		c.Stats.Fail(fmt.Sprintf("class=lost-bytes: a single write of %d bytes is not delivered completely within 40 s", n), desc)
+		qab.Close()
+		qba.Close()
+	}
+	c.Stats.Count("big-write-case")
+	a.Close()
 }
 
 func streamCase(c *Ctx, idx int) {
@@ -997,6 +1050,9 @@ func runC32(c *Ctx) error {
 	}
 	for i := 0; i < nStream; i++ {
 		streamCase(c, i)
+	}
+	for i, nb := 0, c.N(6, 24); i < nb; i++ {
+		bigWriteCase(c, []int{65535, 65536, 65537, 2 * 65536, 70000, 3*65536 + 5}[i%6])
 	}
 	header := "From Coq Require Import List ZArith NArith Bool.\nFrom Verif Require Import Outcome Cmp.\nFrom C32 Require Import Model Run.\nImport ListNotations.\nOpen Scope N_scope.\n"
 	return c.Cases.Write(c.Out, header, "list row", "rows_eqb")
